@@ -158,6 +158,9 @@ pub fn on_get_invoke(w: &mut MWorld, _opi: usize) {
     if is(w, "C03") || is(w, "C10") {
         c03_on_invoke(w, _opi);
     }
+    if is(w, "C10") {
+        c10_track_zero_wait(w);
+    }
     let n = w
         .ops
         .iter()
@@ -461,6 +464,9 @@ pub fn after_step(w: &mut MWorld, _info: &SimInfo) -> Option<Violation> {
         .filter(|(_, s)| **s == AState::Pending)
         .map(|(i, _)| i)
         .collect();
+    if is(w, "C10") {
+        c10_track_zero_wait(w);
+    }
     if is(w, "C01") {
         let live = w.n_live();
         let creating = w.n_inflight_creates();
@@ -778,7 +784,7 @@ pub fn final_checks(w: &mut MWorld, probe_err: Option<String>) -> Option<Violati
                 return Some(v);
             }
         }
-        if matches!(p.as_str(), "C02" | "C03" | "C07") && !closed {
+        if matches!(p.as_str(), "C02" | "C03" | "C07" | "C09") && !closed {
             let max = w.cur_max_size();
             if eff(&sn.s) != max as isize || sn.s.users != 0 || sn.s.size != sn.s.idle {
                 return Some(crate::engine::violation(
@@ -1940,6 +1946,34 @@ pub fn c06_rest(w: &mut MWorld, when: &str) -> Option<Violation> {
     None
 }
 
+/// Lower bound of the slots a non-blocking get could acquire right now, from the ledger only:
+/// every checked-out object, every other get in progress and every return / take in transit is
+/// assumed to hold a permit. 0 while the limit is being changed.
+fn free_slots_lower_bound(w: &MWorld, except_op: usize) -> usize {
+    if w.orc.resizes_in_progress > 0 || w.orc.close_invoked || w.orc.max_ambiguous.is_some() || w.orc.closed_step.is_some() {
+        return 0;
+    }
+    let busy = w
+        .ops
+        .iter()
+        .enumerate()
+        .filter(|(i, o)| *i != except_op && o.return_step.is_none() && matches!(o.op, Op::Get { .. } | Op::Return { .. } | Op::Take { .. }))
+        .count()
+        + if w.ctl_op.is_some() { 1 } else { 0 };
+    w.cur_max_size().saturating_sub(w.n_out() + busy)
+}
+
+/// Updates the interval bound of every non-blocking get that is still looking for a slot.
+fn c10_track_zero_wait(w: &mut MWorld) {
+    for opi in gets_in_progress(w) {
+        if w.ops[opi].eff.0 == Some(0) && w.ops[opi].calls.is_empty() {
+            let lb = free_slots_lower_bound(w, opi);
+            let cur = w.ops[opi].free_lb_min;
+            w.ops[opi].free_lb_min = Some(cur.map(|c| c.min(lb)).unwrap_or(lb));
+        }
+    }
+}
+
 // ---- C10: timeouts, non-blocking mode, missing runtime ---------------------------------------
 
 fn c10(clause: &str, d: String) -> Option<Violation> {
@@ -2014,6 +2048,21 @@ pub fn c10_get_return(w: &mut MWorld, opi: usize) -> Option<Violation> {
         }
         if res == OpRes::GetErr(ErrV::TimeoutWait) && !calls.is_empty() {
             return c10("wait_timeout_only_while_waiting", "Timeout(Wait) although the call had already obtained a slot".into());
+        }
+        // with other operations running: Timeout(Wait) is only legal if at some step of the
+        // call's interval no slot may have been free (interval bound from the ledger)
+        if res == OpRes::GetErr(ErrV::TimeoutWait) && calls.is_empty() {
+            let lb_now = free_slots_lower_bound(w, opi);
+            let lb = op.free_lb_min.map(|m| m.min(lb_now));
+            if let Some(lb) = lb {
+                if lb > 0 {
+                    return c10(
+                        "zero_wait_timeout_iff_full",
+                        format!("non-blocking get reported Timeout(Wait) although at least {lb} slot(s) were free during the whole call (max_size {}, {} checked out)", w.cur_max_size(), w.n_out()),
+                    );
+                }
+                w.cnt.probe("zero_wait_timeout_bound_checked");
+            }
         }
     }
     if wait.is_none() && res == OpRes::GetErr(ErrV::TimeoutWait) {
